@@ -26,17 +26,17 @@ var errC19 = errors.New("verif: injected entropy failure")
 
 // faultyReader delivers data[:failAt] in the scripted chunk sizes and then fails.
 type faultyReader struct {
-	data     []byte
-	pos      int
-	failAt   int // -1: never fails (and then io.EOF at the end of data)
-	err      error
-	withData bool  // the chunk that reaches failAt is returned together with the error
-	chunks   []int // sizes of successive reads (cycled); 0 = successful empty read
-	ci       int
-	reads    int
-	failed   bool
+	data      []byte
+	pos       int
+	failAt    int // -1: never fails (and then io.EOF at the end of data)
+	err       error
+	withData  bool  // the chunk that reaches failAt is returned together with the error
+	chunks    []int // sizes of successive reads (cycled); 0 = successful empty read
+	ci        int
+	reads     int
+	failed    bool
 	transient bool // the error is reported ONCE; afterwards the source delivers the rest of the stream as if nothing had happened
-	reported bool
+	reported  bool
 }
 
 func (f *faultyReader) Read(p []byte) (int, error) {
